@@ -12,8 +12,12 @@ What is modelled (src/transaction_tracker.rs, src/db.rs, src/transactions.rs, pa
 * `TransactionalMemory::{commit, non_durable_commit}`: the swap of `state.header` under the state
   lock is the one action that makes a new root visible                      ⇒ `publish`.
 * `Database::begin_read`: `register_read_transaction` (under the tracker lock reads the latest
-  committed id and pins it) and THEN, separately, `ReadTransaction::new` reads the latest data
-  root                                                                       ⇒ `register` ; `readRoot`.
+  committed id and pins it) and the read of the data root                    ⇒ `register` ; `readRoot`.
+  Until the repair of finding F10 the root was read separately, later, by `ReadTransaction::new`
+  (a commit could be published in between); since the repair id and root are read under one
+  acquisition of the state lock inside the registration. The model keeps the two actions and
+  allows a publish between them - a superset of what the code does; `c03_atomic_begin_read` is
+  the statement for adjacent actions.
 * dropping a `ReadTransaction` (`deallocate_read_transaction`)               ⇒ `drop`.
 * a write transaction that is aborted (or dropped) releases the slot without ever swapping the
   state: its version is recorded as aborted                                  ⇒ `release` from `body`.
@@ -209,7 +213,7 @@ The harness cannot observe the atomic actions themselves, only points before and
 every model action of a thread lies in a WINDOW delimited by two of its events
 
     register   ∈ (read-begin,                    at begin_read.registered)
-    readRoot   ∈ (at begin_read.registered,      read-end)
+    readRoot   ∈ (register,                      at begin_read.registered)
     drop       ∈ (at guard.drop_read,            …)
     acquire    ∈ (write-begin,                   write-started | first pause point of the writer)
     body v     =  write-started version=v        (private to the writer: placed at the event)
@@ -281,15 +285,23 @@ def setWin (f : Tid → Option Kind) (t : Tid) (k : Option Kind) : Tid → Optio
 /-- threads of a schedule: 0 = the reader pinned during set-up, 1 = T1, 2 = T2, 3 = set-up writer -/
 def threads : List Tid := [0, 1, 2, 3]
 
+/-- the hidden action whose window opens when one of kind `k` has been taken: `begin_read` reads
+its root right after (and, since the repair of the begin_read race, atomically with) the
+registration, before the thread reaches the pause point `begin_read.registered` -/
+def Kind.next : Kind → Option Kind
+  | .register => some .readRoot
+  | _ => none
+
 def Cand.hidden (c : Cand) (t : Tid) : Option Cand :=
   match c.win t with
   | none => none
   | some k => match fire c.sys t k with
-    | some s' => some { sys := s', win := setWin c.win t none }
+    | some s' => some { sys := s', win := setWin c.win t k.next }
     | none => none
 
-/-- all candidates reachable by hidden actions (each thread has at most one window open and taking
-the action closes it, so `threads.length` rounds suffice) -/
+/-- all candidates reachable by hidden actions (each thread has at most one window open; taking
+the action closes it or, for `register`, opens the window of the `readRoot` that follows it, so
+`2 * threads.length` rounds suffice) -/
 def closure : Nat → Cand → List Cand
   | 0, c => [c]
   | n + 1, c => c :: threads.flatMap fun t =>
@@ -304,7 +316,7 @@ def dedupe : List Cand → List Cand
   | [] => []
   | c :: cs => if cs.any (fun d => d.key == c.key) then dedupe cs else c :: dedupe cs
 
-def closeAll (cs : List Cand) : List Cand := dedupe (cs.flatMap (closure threads.length))
+def closeAll (cs : List Cand) : List Cand := dedupe (cs.flatMap (closure (2 * threads.length)))
 
 /-- monitor state -/
 structure Mon where
@@ -351,8 +363,9 @@ def evActs (m : Mon) (c : Cand) : Event → Option (List Action × (Tid → Opti
   | .readBegin t f =>
     if c.quiet t && completed c.sys f then some ([], setWin c.win t (some .register)) else none
   | .at t .beginReadRegistered =>
+    -- the reader has its pin AND its root when it reaches this point
     match c.sys.pc t with
-    | .registered _ => some ([], setWin c.win t (some .readRoot))
+    | .reading _ _ => if c.win t == none then some ([], c.win) else none
     | _ => none
   | .readEnd t v v2 _ cons =>
     -- both full reads are `read` actions of the model through the root the thread holds
